@@ -309,6 +309,34 @@ example : ((MutexTasks.tsys .pref [⟨[], [(0, true)], true⟩, ⟨[0], [(0, tru
   | 0, _ => rfl
   | 1, _ => rfl
 
+/-- A task whose body fails is no obstacle.  In every reachable state (1) a task that has ended — its body
+succeeded, failed, or it gave up in `waitForTasks` — holds no resource; (2) a task gives up only because a
+task of its own wait list has ended with an error (its body failed, or it had given up itself), and it
+never held anything; (3) all tasks can still be brought to their end — in particular every task that
+needs a resource the failed task held gets it. -/
+theorem failed_task_releases (v : Variant) (tasks : List MutexTasks.Task) (hwf : MutexTasks.WellFormed tasks)
+    (hmaps : ∀ t ∈ tasks, NodupNames t.map) (sched : List Nat) :
+    (∀ j r, MutexTasks.finishedAt ((MutexTasks.tsys v tasks).run sched) j = true →
+      ¬ HoldsAt ((MutexTasks.tsys v tasks).run sched).lock j r) ∧
+    (∀ i t, tasks[i]? = some t → ((MutexTasks.tsys v tasks).run sched).stage[i]? = some .aborted →
+      (∀ r, ¬ HoldsAt ((MutexTasks.tsys v tasks).run sched).lock i r) ∧
+      ∃ j ∈ t.waits, MutexTasks.finishedAt ((MutexTasks.tsys v tasks).run sched) j = true ∧
+        MutexTasks.failedAt tasks ((MutexTasks.tsys v tasks).run sched) j = true) ∧
+    ∃ more : List Nat, MutexTasks.AllFinished tasks ((MutexTasks.tsys v tasks).run (sched ++ more)) :=
+  ⟨fun _ r hf => MutexTasks.tasks_finished_holds_nothing_main v tasks hmaps (run_reachable _ sched) hf r,
+   fun i t ht hs =>
+    ⟨fun r => MutexTasks.tasks_waiting_holds_nothing_main v tasks hmaps (run_reachable _ sched) hs (by simp) r,
+     MutexTasks.abortedWhy_reachable (run_reachable _ sched) i t ht hs⟩,
+   tasks_all_finish v tasks hwf hmaps sched⟩
+
+-- F = {0:W} fails; D waits for F and gives up; S = {0:W, 1:W} gets resource 0 afterwards and is inside its body
+example : ((MutexTasks.tsys .pref
+      [⟨[], [(0, true)], true⟩, ⟨[0], [(1, true)], false⟩, ⟨[], [(1, true), (0, true)], false⟩]).run
+      [0, 0, 0, 0, 0, 0, 0, 1, 2, 2, 2, 2, 2, 2]).stage[1]? = some .aborted ∧
+    InsideAt ((MutexTasks.tsys .pref
+      [⟨[], [(0, true)], true⟩, ⟨[0], [(1, true)], false⟩, ⟨[], [(1, true), (0, true)], false⟩]).run
+      [0, 0, 0, 0, 0, 0, 0, 1, 2, 2, 2, 2, 2, 2]).lock 2 := ⟨rfl, _, rfl, rfl⟩
+
 /-! ### 7. The order is what the theorem uses -/
 
 /-- With the two statements swapped (`tsysSwapped`: `SharedMutex.Lock(map)` first, `waitForTasks` while
@@ -360,5 +388,15 @@ theorem order_monitor_accepts_iff (waits : List (List Nat)) (ivs : List Interval
 -- task 1 waits for task 0: entering its body before task 0 left is rejected, afterwards accepted
 example : MutexTasks.orderMonitor [[], [0]] [⟨0, [(7, true)], 1, 4⟩, ⟨1, [], 3, 6⟩] = some (1, 0) := by decide
 example : MutexTasks.orderMonitor [[], [0]] [⟨0, [(7, true)], 1, 4⟩, ⟨1, [], 5, 6⟩] = none := by decide
+
+/-- The failure monitor accepts exactly when no task recorded a body although a task of its wait list is
+one whose body fails. -/
+theorem fail_monitor_accepts_iff (waits : List (List Nat)) (fails : List Bool) (ivs : List Interval) :
+    MutexTasks.failMonitor waits fails ivs = none ↔
+      ∀ x ∈ ivs, ∀ j ∈ waits.getD x.holder [], fails.getD j false = false :=
+  MutexTasks.failMonitor_none_iff waits fails ivs
+
+example : MutexTasks.failMonitor [[], [0]] [true, false] [⟨0, [(7, true)], 1, 4⟩, ⟨1, [], 5, 6⟩] = some (1, 0) := by decide
+example : MutexTasks.failMonitor [[], [0]] [false, false] [⟨0, [(7, true)], 1, 4⟩, ⟨1, [], 5, 6⟩] = none := by decide
 
 end Goat.C15
